@@ -17,12 +17,12 @@ import (
 
 func init() {
 	seqChecks["c08"] = &seqCheck{run: runC08, replay: replayC08,
-		rule: "every sequence of <=3 (4 thorough) event calls over 15 actions x apply handler {absent, ok, error, no-change} x listeners {none, same pattern, other handler's Listeners map with one or three entries, mounted mux, two listeners, a listener emitting a nested event} x type {model, collection, unset} x context {call handler, With callback}; one global log fed by apply handlers, connection and listeners is compared with the reference log; distinct = distinct (case, log) pairs"}
+		rule: "every sequence of <=3 (4 thorough) event calls over 16 actions x apply handler {absent, ok, error, no-change} x listeners {none, same pattern, other handler's Listeners map with one or three entries, mounted mux, mounted mux with the listener added after a first lookup, two listeners, a listener emitting a nested event} x type {model, collection, unset} x context {call handler, With callback}; one global log fed by apply handlers, connection and listeners is compared with the reference log; distinct = distinct (case, log) pairs"}
 }
 
-var c08Actions = []string{"change", "changeEmpty", "add0", "addNeg", "remove0", "removeNeg", "create", "delete", "custom", "customNil", "evChange", "evDotted", "evEmpty", "timeout", "reply"}
+var c08Actions = []string{"change", "changeEmpty", "add0", "addNeg", "remove0", "removeNeg", "create", "delete", "custom", "customNil", "evChange", "evDotted", "evEmpty", "evDel", "timeout", "reply"}
 var c08Apply = []string{"absent", "ok", "error", "nochange"}
-var c08Lis = []string{"none", "same", "other", "othermap", "mounted", "two", "nested"}
+var c08Lis = []string{"none", "same", "other", "othermap", "mounted", "mountedlate", "two", "nested"}
 var c08Types = []string{"model", "collection", "unset"}
 
 type c08Case struct {
@@ -54,7 +54,7 @@ func jsonOf(v interface{}) string {
 // c08Reference computes the expected global log.
 func c08Reference(c c08Case, rname string) []string {
 	var log []string
-	nlis := map[string]int{"none": 0, "same": 1, "other": 1, "othermap": 1, "mounted": 1, "two": 2, "nested": 2}[c.Lis]
+	nlis := map[string]int{"none": 0, "same": 1, "other": 1, "othermap": 1, "mounted": 1, "mountedlate": 1, "two": 2, "nested": 2}[c.Lis]
 	ev := "event." + rname + "."
 	listeners := func(desc string) {
 		for i := 0; i < nlis; i++ {
@@ -156,7 +156,7 @@ func c08Reference(c c08Case, rname string) []string {
 			// a custom event without payload is published (empty payload) and handed to the listeners
 			log = append(log, "pub "+ev+"ping ")
 			listeners(`ping payload=null`)
-		case "evChange", "evDotted", "evEmpty":
+		case "evChange", "evDotted", "evEmpty", "evDel":
 			failed = true
 		case "timeout":
 			if c.Ctx == "call" {
@@ -191,7 +191,7 @@ func c08Reference(c c08Case, rname string) []string {
 
 func c08Run(c c08Case) (log []string, rname string, problems []string) {
 	rname = "t.r"
-	if c.Lis == "mounted" {
+	if c.Lis == "mounted" || c.Lis == "mountedlate" {
 		rname = "t.sub.r"
 	}
 	r := scen.RunSeq(func() {
@@ -304,6 +304,8 @@ func c08Run(c c08Case) (log []string, rname string, problems []string) {
 				r.Event("a.b", nil)
 			case "evEmpty":
 				r.Event("", map[string]int{"p": 1})
+			case "evDel":
+				r.Event("upd\x7f", map[string]int{"p": 1}) // DEL: a control character, not a valid name part
 			case "customNil":
 				r.Event("ping", nil)
 			case "timeout":
@@ -335,6 +337,16 @@ func c08Run(c c08Case) (log []string, rname string, problems []string) {
 			sub.Handle("r", opts...)
 			sub.AddListener("r", lis(0))
 			s.Mount("sub", sub)
+		case "mountedlate":
+			// the listener is added through the mounted mux after the service has already looked the resource up
+			sub := res.NewMux("")
+			sub.Handle("r", opts...)
+			s.Mount("sub", sub)
+			if _, err := s.Resource("t.sub.r"); err != nil {
+				problems = append(problems, "Resource before Serve failed: "+err.Error())
+			}
+			s.GetHandler("t.sub.r")
+			sub.AddListener("r", lis(0))
 		case "other":
 			s.Handle("r", opts...)
 			s.Handle("other", res.GetModel(func(r res.ModelRequest) { r.NotFound() }), res.OptionFunc(func(h *res.Handler) {
@@ -448,7 +460,7 @@ func runC08(c *seqCtx) {
 			for _, ty := range c08Types {
 				for _, ctx := range []string{"call", "with"} {
 					for _, sc := range scripts {
-						if len(sc) == maxLen && !c.thorough && (li == "other" || li == "othermap" || li == "mounted" || li == "nested") && len(sc) > 2 {
+						if len(sc) == maxLen && !c.thorough && (li == "other" || li == "othermap" || li == "mounted" || li == "mountedlate" || li == "nested") && len(sc) > 2 {
 							continue // quick: the two indirect listener placements only up to length 2
 						}
 						if !c.Mine() {
